@@ -442,6 +442,22 @@ def _(i, st, a, c): return div_real(st, Fraction(1), a[0])
 def _(i, st, a, c): return True       # reals are finite (stated abstraction)
 
 
+@model(r'core::num::<impl i(8|16|32|64|128|size)>::unsigned_abs', r'core::num::<impl i(64|128|size)>::abs')
+def _(i, st, a, c):
+    x = a[0]
+    if not is_z3(x):
+        return abs(x)
+    return z3.If(x >= 0, x, -x)
+
+
+@model(r'core::num::<impl i(8|16|32|64|128|size)>::signum')
+def _(i, st, a, c):
+    x = a[0]
+    if not is_z3(x):
+        return (x > 0) - (x < 0)
+    return z3.If(x > 0, z3.IntVal(1), z3.If(x < 0, z3.IntVal(-1), z3.IntVal(0)))
+
+
 @model(r'core::num::<impl i32>::abs')
 def _(i, st, a, c):
     x = a[0]
@@ -497,6 +513,34 @@ def _(i, st, a, c):
         i.panics.append((tuple(st.pc), 'expect/unwrap on Err', st))
         return []
     raise Unsupported('Result::expect on %r' % (v,))
+
+
+@model(r'<Option as Try>::branch')
+def _(i, st, a, c):
+    v = a[0]
+    if isinstance(v, Var) and v.name == 'Some':
+        return Var('Continue', (v.items[0],), 'ControlFlow')
+    if isinstance(v, Var) and v.name == 'None':
+        return Var('Break', (Var('None', (), 'Option'),), 'ControlFlow')
+    raise Unsupported('Try::branch on %r' % (v,))
+
+
+@model(r'<Option as FromResidual>::from_residual', r'<Option as FromResidual<Option>>::from_residual')
+def _(i, st, a, c): return Var('None', (), 'Option')
+
+
+@model(r'<Result as Try>::branch')
+def _(i, st, a, c):
+    v = a[0]
+    if isinstance(v, Var) and v.name == 'Ok':
+        return Var('Continue', (v.items[0],), 'ControlFlow')
+    if isinstance(v, Var) and v.name == 'Err':
+        return Var('Break', (v,), 'ControlFlow')
+    raise Unsupported('Try::branch on %r' % (v,))
+
+
+@model(r'<Result as FromResidual>::from_residual', r'<Result as FromResidual<Result>>::from_residual')
+def _(i, st, a, c): return a[0]
 
 
 @model(r'Option::map_or')
